@@ -94,6 +94,7 @@ def build(ctx, job, mode):
 
 
 def run(ctx, job):
+    ctx.scripted = True
     from pacti.iocontract import Var
     from pacti.utils.errors import IncompatibleArgsError
 
